@@ -94,6 +94,7 @@ class Scenario:
         d["alpha"] = None if self.alpha is None else str(self.alpha)
         d["out_scale"] = str(self.out_scale)
         d["loss_scale"] = str(self.loss_scale)
+        d["loss_offset"] = str(self.loss_offset)
         d["stream"] = [[[str(v) for v in xs], y, n, u] for (xs, y, n, u) in self.stream]
         d["faults"] = {str(k): v for k, v in self.faults.items()}
         return d
@@ -104,6 +105,7 @@ class Scenario:
         d["alpha"] = None if d["alpha"] is None else F(d["alpha"])
         d["out_scale"] = F(d.get("out_scale", 1))
         d["loss_scale"] = F(d.get("loss_scale", 1))
+        d["loss_offset"] = F(str(d.get("loss_offset", 0)))
         d["stream"] = [([F(v) for v in xs], y, n, u) for (xs, y, n, u) in d["stream"]]
         d["faults"] = {int(k): v for k, v in d["faults"].items()}
         if d.get("storage") is not None:
@@ -535,7 +537,9 @@ def run_scenario(sc, tape_mode="log", script=None, keep_raw=False, provider=None
                     ret = ex.explain_one(x_i=x, y_i=y, **kw) if sc.keyword_calls else ex.explain_one(x, y, **kw)
             except Boom:
                 outcome, exc_name = "exc", "Boom"
-            except TapeMismatch:
+            except (TapeMismatch, Unrepresentable):
+                # (Unrepresentable: a recording callback of the harness met a number whose denominator is divisible by P -
+                # the scenario cannot be encoded for TLC and is skipped by the caller; it is not an error of the library)
                 raise
             except Exception as e:      # the library (or a callback precondition) raised
                 if carries_boom(e):
